@@ -373,6 +373,39 @@ def backends_agree_aes_cmac(n: int, kb: int, mb: int, kpos: int) -> bool:
         return bi.e(key, blk) == lib.e(key, blk)
 
 
+@harness(pre=['0 <= first <= 4 and 0 <= odd <= 33 and 0 <= fn <= 2 and 0 <= kb <= 5'], family='backend-agreement', twin=True, kernels=K, timeout=(150, 400),
+         bounds='a back end has no memory: after an earlier call on the same key (e on a block of 0..33 bytes - malformed lengths included, whatever that call returns or raises -, aes_cmac, e on a 0..2-byte block as ah would pass a truncated prand, two malformed calls, or nothing), e (two blocks) / aes_cmac on well-formed input return in BOTH back ends what the built-in back end returns in a fresh state; the FIPS-197 sample block is reproduced afterwards; 6 keys; concrete execution per solver fork')
+def backend_results_do_not_depend_on_earlier_calls(first: int, odd: int, fn: int, kb: int) -> bool:
+    from bumble.crypto import cryptography as lib
+    first, odd, fn, kb = C(first, 0, 4), C(odd, 0, 33), C(fn, 0, 2), C(kb, 0, 5)
+    with untraced():
+        key = bytes([_BYTES[kb]]) + bytes.fromhex('0102030405060708090a0b0c0d0e0f')
+        blk = bytes.fromhex('00112233445566778899aabbccddeeff')
+        fips_key = bytes.fromhex('000102030405060708090a0b0c0d0e0f')[::-1]
+        want = {0: lambda m: m.e(key, blk), 1: lambda m: m.e(key, blk[:3] + bytes(13)), 2: lambda m: m.aes_cmac(blk + blk[:5], key)}[fn]
+        expected = want(bi)
+        for m in (bi, lib):
+            for k in (key, fips_key):
+                try:
+                    if first == 1:
+                        m.e(k, bytes(range(odd)))
+                    elif first == 2:
+                        m.aes_cmac(bytes(range(odd)), k)
+                    elif first == 3:
+                        m.e(k, bytes(range(odd % 3)))
+                    elif first == 4:
+                        m.e(k, bytes(range(odd)))
+                        m.e(k, bytes(range(33 - odd)))
+                except Exception:
+                    pass
+            if want(m) != expected:
+                return False
+            # FIPS-197 C.1 (bumble's e takes key and block in little-endian order)
+            if m.e(fips_key, blk[::-1])[::-1] != bytes.fromhex('69c4e0d86a7b0430d8cdb78070b4c55a'):
+                return False
+        return True
+
+
 # ------------------------------------------------------------------------------------------ RPA
 def _stub_e(key, data):
     return bytes((a + 2 * b + 1) % 256 for a, b in zip(key, data))
